@@ -184,7 +184,7 @@ std::string handle(const std::string& op, Args& a)
 		auto g	   = mk(a);
 		double lam = a.dbl();
 		a.end();
-		return run([&](Out& o) {
+		return run_forked([&](Out& o) {	  // a negative mean exits with a diagnostic
 			auto ref   = g;
 			unsigned k = Sample_Poisson(g, lam);
 			o << (long long) k << draws_between(ref, g) / 2;
@@ -195,7 +195,7 @@ std::string handle(const std::string& op, Args& a)
 		auto g	 = mk(a);
 		auto lam = a.dbls();
 		a.end();
-		return run([&](Out& o) {
+		return run_forked([&](Out& o) {	  // a negative mean exits with a diagnostic
 			auto ref = g;
 			auto ks	 = Sample_Poisson(g, lam);
 			o.ilist(ks);
